@@ -553,7 +553,7 @@ class TIMachine(FormatMachine):
         # the whole file was consumed (observed on the read trace)
         reads = [t for t in self.fs.trace[mark:] if t[0] == "read" and t[1] == target]
         consumed = sum(t[4] for t in reads)
-        if consumed < size:
+        if reads and consumed < size:
             raise Violation("C16", "C16.digest_is_true_digest_of_whole_file", "file-not-fully-read", {"consumed": consumed, "size": size})
         s.model["checksums"][npath] = [ctype, want_digest]
         return "ok-computed"
